@@ -35,7 +35,7 @@ pub fn batch_cfg(prop: &str, tier: Tier, seed: u64) -> BatchCfg {
     };
     match prop {
         "C20" => {
-            cfg.runs = if quick { 40_000 } else { 2_000_000 };
+            cfg.runs = if quick { 100_000 } else { 10_000_000 };
             cfg.chunk = if quick { 500 } else { 5000 };
             cfg.sample_every = cfg.runs / 4;
             cfg.rule = "Seeded simulation runs: each run draws (from one choice tape) a registry of 1-5 packages x 0-4 releases (some yanked / pre-release), 1-6 requested keys (same name at several versions, versioned+unversioned, missing package/version, invalid names) in a drawn request order, a scheduler flavour, latencies and a fault plan, then executes the real RegistryPackageResolver::resolve on the simulator's executor; one run in four instead goes through the hand-over in wac_cli::PackageResolver::resolve (a parsed document, some keys also present on a simulated disk in the documented layout, the rest asked of the registry). A run is non-trivial if at least one fault fired or at least two keys were requested; distinct = distinct SHA-256 digests of the run's event log (scenario + every issue/fire/poll/spawn/abort event + outcome).".into();
